@@ -30,54 +30,9 @@ open Placement Placement.Hier Placement.Gens Placement.Sched
 variable {R : Type} [CapOps R]
 set_option linter.unusedSectionVars false
 
-/-- the requests of the pool listed in `order`, as handler-level requests -/
-def opsAt (ops : List (Op R)) (order : List Nat) : List (Op R) := order.filterMap (fun i => ops[i]?)
-
-/-- the request programs of the pool by index -/
-def progAt (cfg : Config) (ops : List (Op R)) (i : Nat) : P R := (((ops.map (prog cfg))[i]?).getD (.done r500))
-
-theorem serial_eq_run (cfg : Config) (ops : List (Op R)) (hops : ∀ op ∈ ops, guardedUpdate op = true) :
-    ∀ (order : List Nat) (s : DB R), (∀ i ∈ order, i < ops.length) →
-      serial serFuel (progAt cfg ops) order s = (run cfg s (opsAt ops order)).1 ∧
-      (SerialOk serFuel (progAt cfg ops) Resp.ok order s → ∀ r ∈ (run cfg s (opsAt ops order)).2, r.ok = true)
-  | [], s, _ => ⟨rfl, fun _ r hr => by cases hr⟩
-  | i :: is, s, h => by
-    have hi : i < ops.length := h i List.mem_cons_self
-    have hget : ops[i]? = some ops[i] := List.getElem?_eq_getElem hi
-    have hp : progAt cfg ops i = prog cfg ops[i] := by
-      unfold progAt; rw [List.getElem?_map, hget]; rfl
-    have hrun := guardedUpdate_runSeq cfg (hops _ (List.getElem_mem hi)) s
-    have ih := serial_eq_run cfg ops hops is (step cfg s ops[i]).1 (fun j hj => h j (List.mem_cons_of_mem _ hj))
-    have hops' : opsAt ops (i :: is) = ops[i] :: opsAt ops is := by
-      unfold opsAt; rw [List.filterMap_cons, hget]
-    rw [hops']
-    constructor
-    · show serial serFuel (progAt cfg ops) is (Prog.runSeq serFuel (progAt cfg ops i) s).1 = _
-      rw [hp, hrun, ih.1]
-      simp only [run]
-    · intro hok r hr
-      obtain ⟨⟨a, ha, hoka⟩, hrest⟩ := hok
-      rw [hp, hrun] at ha hrest
-      simp only [run] at hr
-      rcases List.mem_cons.mp hr with e | hr'
-      · rw [e]
-        simp only [Option.some.injEq] at ha
-        rw [ha]; exact hoka
-      · exact ih.2 hrest r hr'
-
-theorem pending_pool (cfg : Config) (ops : List (Op R)) (hops : ∀ op ∈ ops, guardedUpdate op = true) {i : Nat}
-    (hi : i < ops.length) : pending (ops.map (prog cfg)) i = true := by
-  unfold pending
-  rw [List.getElem?_map, List.getElem?_eq_getElem hi]
-  have h := hops _ (List.getElem_mem hi)
-  generalize ops[i] = op at h
-  cases op <;> simp only [guardedUpdate, Bool.false_eq_true, Bool.and_eq_true, decide_eq_true_eq] at h
-  · rfl
-  · rfl
-  · rename_i mv u g aggs
-    show ((some (pAggsSet mv u g aggs)).bind Prog.next?).isSome = true
-    unfold pAggsSet
-    rw [if_neg (by omega)]; rfl
+/-! `guardedUpdate op` (Lemmas/SchedSerRp.lean): PUT inventories, PUT one inventory, PUT aggregates >= 1.19
+with a generation.  `opsAt ops order`: the requests of the pool listed in `order`.  `okOrder`: the
+requests that finish with a 2xx answer, in the order in which they finish (Lemmas/SchedSer.lean). -/
 
 /-- **guarded_updates_serializable.**  Any number of generation-guarded inventory / aggregate updates
 in flight together on arbitrary providers, any schedule.  Let `order` be the successfully answered
